@@ -26,6 +26,7 @@ func init() {
 
 func runC19(c *Ctx, r *Run) {
 	r.Rule("ENC-0", "item framing in hash.WriteAny: variable-width writes are length-prefixed by a fixed-width encoding of len() of the same value on every path; the type switch rejects unknown types")
+	r.Rule("ENC-2", "every transcript writer is total on its type: no value is refused")
 	r.Rule("ENC-1", "each typed writer is injective as a whole: at most one undelimited variable-width segment, none inside loops; loops write fixed-width or length-prefixed items")
 	r.Rule("DOM-1", "domain strings are non-empty constants, pairwise distinct across writer types; ad-hoc BytesWithDomain literals use constant non-empty domains")
 	r.Rule("FS-4", "nothing can be dropped by the type switch: every static argument type at WriteAny/Fork/Commit/Decommit/New call sites is []byte, *big.Int, WriterToWithDomain or BinaryMarshaler")
@@ -38,11 +39,13 @@ func runC19(c *Ctx, r *Run) {
 	}
 	checkWriteAnyFraming(c, r)
 	impls := writerImplementers(c)
+	checkWritersTotal(c, r, "ENC-2", impls)
 	checkWriterShapes(c, r, impls)
 	checkDomains(c, r, impls)
 	checkHashArgTypes(c, r)
 	checkCommit(c, r)
 
+	r.Require("ENC-2", 15)
 	r.Require("ENC-0", 3)
 	r.Require("ENC-1", 17)
 	r.Require("DOM-1", 20)
@@ -1146,4 +1149,100 @@ func variadicSingle(v ssa.Value) ssa.Value {
 		return val
 	}
 	return nil
+}
+
+// checkWritersTotal: ENC-2. A transcript writer must be total on the values of its type: the hash API's callers
+// (HashForID, Message.Hash, many WriteAny sites) cannot do anything useful with "this value cannot be hashed" and
+// several of them discard the error by design, so a writer that refuses some values silently drops the item - and
+// everything after it - from the transcript. Allowed error returns: a nil receiver / nil component, and the error of an
+// underlying Write / WriteTo / MarshalBinary / Fill* call.
+func checkWritersTotal(c *Ctx, r *Run, rule string, impls []writerImpl) {
+	for _, im := range impls {
+		fn := c.Prog.FuncValue(im.writeTo)
+		if fn == nil || len(fn.Blocks) == 0 {
+			continue
+		}
+		name := c.FuncName(fn)
+		r.Analysed(name)
+		var bad []string
+		// refusals that ORIGINATE in the writer: returns of a fresh error (errors.New / fmt.Errorf / a package-level
+		// error value). Propagated errors of the underlying writer are not refusals of a value.
+		fresh := func(v ssa.Value) bool {
+			switch x := stripConv(v).(type) {
+			case *ssa.Call:
+				if o := calleeObj(x); o != nil && o.Pkg() != nil && (o.Pkg().Path() == "errors" || o.Pkg().Path() == "fmt") {
+					return true
+				}
+			case *ssa.UnOp:
+				if _, isG := x.X.(*ssa.Global); isG && x.Op == token.MUL {
+					return true
+				}
+			case *ssa.MakeInterface:
+				return true
+			}
+			return false
+		}
+		zeroTest := func(cond ssa.Value) bool {
+			if u, ok := cond.(*ssa.UnOp); ok && u.Op == token.NOT {
+				cond = u.X
+			}
+			bo, ok := cond.(*ssa.BinOp)
+			if !ok || (bo.Op != token.EQL && bo.Op != token.NEQ) {
+				return false
+			}
+			if isNilConst(bo.X) || isNilConst(bo.Y) {
+				return true
+			}
+			// `id == ""`, `len(x) == 0`: the zero value of the type
+			for _, side := range []ssa.Value{bo.X, bo.Y} {
+				if k, ok := side.(*ssa.Const); ok && k.Value != nil {
+					if s := k.Value.ExactString(); s == `""` || s == "0" {
+						return true
+					}
+				}
+			}
+			return false
+		}
+		for _, ret := range returnsOf(fn) {
+			if len(ret.Results) == 0 {
+				continue
+			}
+			last := ret.Results[len(ret.Results)-1]
+			type origin struct {
+				v   ssa.Value
+				blk *ssa.BasicBlock
+			}
+			var origins []origin
+			if ph, ok := last.(*ssa.Phi); ok {
+				for i, e := range ph.Edges {
+					origins = append(origins, origin{e, ph.Block().Preds[i]})
+				}
+			} else {
+				origins = append(origins, origin{last, ret.Block()})
+			}
+			for _, o := range origins {
+				if !fresh(o.v) {
+					continue
+				}
+				// nearest governing branch
+				var gov *ssa.If
+				for d := o.blk; d != nil && gov == nil; d = d.Idom() {
+					if d != o.blk && len(d.Instrs) > 0 {
+						if iff, ok := d.Instrs[len(d.Instrs)-1].(*ssa.If); ok {
+							gov = iff
+						}
+					}
+				}
+				if gov == nil || !zeroTest(gov.Cond) {
+					cond := "unconditionally"
+					if gov != nil {
+						cond = "when " + path(gov.Cond)
+					}
+					bad = append(bad, c.Pos(ret.Pos())+" "+cond)
+				}
+			}
+		}
+		r.Check(rule, name+"|total", c.Pos(fn.Pos()), len(bad) == 0, "the writer refuses no value of its type (errors only from nil parts or the underlying writer)",
+			"the writer itself refuses some values of its type (fresh error returned at "+strings.Join(bad, "; ")+"): callers that hash such a value (several discard the error by design, e.g. HashForID) silently leave it and all later items out of the transcript, so the per-party / per-session binding is lost for exactly those values")
+	}
 }
